@@ -203,12 +203,13 @@ func svcLines(pkgName string, file int, s *descriptorpb.ServiceDescriptorProto) 
 	}
 	out := []line{l}
 	for _, m := range s.Method {
-		verb, path, sq := uint64(0), "", uint64(0)
+		verb, path, sq, body := uint64(0), "", uint64(0), ""
 		var mopts proto.Message
 		if m.Options != nil {
 			mopts = m.Options
 		}
 		if hr, ok := getExt[*annotations.HttpRule](mopts, annotations.E_Http); ok && hr != nil {
+			body = hr.GetBody()
 			switch p := hr.Pattern.(type) {
 			case *annotations.HttpRule_Get:
 				verb, path = 1, p.Get
@@ -235,7 +236,7 @@ func svcLines(pkgName string, file int, s *descriptorpb.ServiceDescriptorProto) 
 			}
 		}
 		out = append(out, line{Tag: 7,
-			Strs: []string{m.GetName(), strings.TrimPrefix(m.GetInputType(), "."), strings.TrimPrefix(m.GetOutputType(), "."), path},
+			Strs: []string{m.GetName(), strings.TrimPrefix(m.GetInputType(), "."), strings.TrimPrefix(m.GetOutputType(), "."), path, body},
 			Nums: []uint64{verb, sq}})
 	}
 	return out
